@@ -12,7 +12,7 @@ from vf.ref import execute as refx
 
 ID = "C07"
 BOUNDS = {
-    "quick": "9 subscription documents x event sequences of length 0..2 over 5 payload shapes x 4 source kinds x source failure at every position x per-event resolver sync/async x all interleavings of source / pull / resolver gates x early release <=1; 7 creation-failure modes",
+    "quick": "10 subscription documents x event sequences of length 0..2 over 5 payload shapes x 5 source kinds (async generator, custom iterator with / without aclose, aclose that raises, awaitable-returning resolver) x source failure at every position x per-event resolver sync/async x all interleavings of source / pull / resolver gates x early release <=1; 7 creation-failure modes",
     "thorough": "event sequences of length 0..3, early release <=2",
 }
 RULE = (
@@ -27,7 +27,7 @@ ASSUMPTIONS = [
 ]
 
 SCHEMA = """
-type Event { id: ID msg: String nn: Int! sub: Event echo(a: Int = 1): String }
+type Event { id: ID msg: String nn: Int! sub: Event echo(a: Int = 1): String fromroot: String }
 type Query { q: Int }
 type Subscription { ev(n: Int): Event other: Event count: Int }
 """
@@ -41,6 +41,7 @@ DOCS = [
     "subscription { ... on Subscription { ev { sub { nn } id } } }",
     "subscription { ev @include(if: true) { msg } }",
     "subscription { ev { __typename msg } }",
+    "subscription { ev { fromroot id } }",
 ]
 
 
@@ -49,15 +50,15 @@ def payloads():
         raise gdata.Boom("event resolver failed")
 
     return [
-        ("ok", lambda i: {"ev": {"id": f"e{i}", "msg": f"m{i}", "nn": i, "sub": {"msg": "s", "nn": 1, "id": "s"}, "echo": gdata.echo}}),
-        ("nn_null", lambda i: {"ev": {"id": f"e{i}", "msg": f"m{i}", "nn": None, "sub": {"msg": "s", "nn": None}, "echo": gdata.echo}}),
+        ("ok", lambda i: {"ev": {"id": f"e{i}", "msg": f"m{i}", "fromroot": f"m{i}", "nn": i, "sub": {"msg": "s", "nn": 1, "id": "s"}, "echo": gdata.echo}}),
+        ("nn_null", lambda i: {"ev": {"id": f"e{i}", "msg": f"m{i}", "fromroot": f"m{i}", "nn": None, "sub": {"msg": "s", "nn": None}, "echo": gdata.echo}}),
         ("ev_null", lambda i: {"ev": None}),
-        ("raising", lambda i: {"ev": {"id": boom, "msg": boom, "nn": 1, "sub": None, "echo": gdata.echo}}),
+        ("raising", lambda i: {"ev": {"id": boom, "msg": boom, "fromroot": boom, "nn": 1, "sub": None, "echo": gdata.echo}}),
         ("none", lambda i: None),
     ]
 
 
-SOURCE_KINDS = ["agen", "iter_aclose", "iter_plain", "awaitable_agen"]
+SOURCE_KINDS = ["agen", "iter_aclose", "iter_plain", "awaitable_agen", "iter_aclose_raises"]
 CREATION_FAILURES = ["raises", "async_raises", "non_iterable", "returns_exception", "unknown_field", "bad_variable", "awaitable_non_iterable"]
 
 
@@ -124,11 +125,18 @@ def scenario_map(c, schema, doc, text, source_kind, tier):
             async def aclose(self):
                 closed.append("aclose")
 
+        class ItCloseRaises(It):
+            async def aclose(self):
+                closed.append("aclose")
+                raise ConnectionError("closing the source failed too")
+
         def make_source():
             if source_kind in ("agen", "awaitable_agen"):
                 return agen()
             if source_kind == "iter_aclose":
                 return ItClose()
+            if source_kind == "iter_aclose_raises":
+                return ItCloseRaises()
             return It()
 
         def subscribe_ev(_root, _info, **_args):
@@ -140,6 +148,10 @@ def scenario_map(c, schema, doc, text, source_kind, tier):
 
         def resolver(src, info, **args):
             v = src.get(info.field_name) if isinstance(src, dict) else None
+            if info.field_name == "fromroot":
+                # a resolver that looks at the event through info.root_value must see THIS event
+                rv = info.root_value
+                v = rv["ev"].get("fromroot") if isinstance(rv, dict) and isinstance(rv.get("ev"), dict) else None
             if callable(v):
                 v = v(info.path.as_list(), args)
             if async_res and info.field_name == "msg":
